@@ -1,11 +1,12 @@
 ----------------------------- MODULE GatewayTrace -----------------------------
 (* Trace validation of whole-engine histories (harness/cmd/gateway) against the  *)
 (* composition GatewayP.                                                          *)
-(*   line 1  {"ev":"config","cfg":..,"QKind":..,"QMax":..,"QW":..,"QUrl":..,"LimQ":..,"GenStatus":..,"HostWild":..} *)
+(*   line 1  {"ev":"config","cfg":..,"QKind":..,"QMax":..,"QW":..,"LimQ":..,"GenStatus":..}        *)
 (*   {"ev":"reset","now":t}                      fresh engine, clock at t (ticks of 500 ms)  *)
 (*   {"ev":"adv","d":d}                                                              *)
-(*   {"ev":"tx","dir":"req","id":t,"url":u,"seq":[{flow,sid,key,dir,out,sys,q}..],"status":s,"outcome":"ok"|"error"} *)
-(*   {"ev":"tx","dir":"res","id":t,"url":u,"seq":[..],"outcome":..}                  *)
+(*   {"ev":"tx","dir":"req","id":t,"x":txn as FilterP,"seq":[{flow,sid,key,dir,out,sys,q,acts}..],"inv":[user flows   *)
+(*        counted as invoked],"acts":[..],"out":{decoded SPOE variables},"status":s,"outcome":"ok"|"error"|"panic"}   *)
+(*   {"ev":"tx","dir":"res","id":t,"x":txn,"seq":[..],"acts":[..],"out":{..},"outcome":..}                          *)
 (*   {"ev":"err","id":t}                          the proxy reported transaction t failed    *)
 (* A request transaction is consumed in several steps: TBegin judges selection,   *)
 (* walk and answer; TQuota takes one step of the quota specifications for every   *)
@@ -20,7 +21,7 @@ VARIABLES now, lo, hi, charged, admitted, fwlast, inflight, deadline, cqlast,
 TxIds == {TraceLog[i].id : i \in {j \in 2..TraceLen : TraceLog[j].ev = "tx"}}
 
 G == INSTANCE GatewayP WITH TxIds <- TxIds, Cfg <- C0.cfg, QIds <- DOMAIN C0.QKind, QKind <- C0.QKind, QMax <- C0.QMax, QW <- C0.QW,
-                            QUrl <- C0.QUrl, LimQ <- C0.LimQ, GenStatus <- C0.GenStatus, HostWild <- C0.HostWild
+                            LimQ <- C0.LimQ, GenStatus <- C0.GenStatus
 
 gvars == <<now, lo, hi, charged, admitted, fwlast, inflight, deadline, cqlast, l, cur, pos, seen>>
 qstate == <<lo, hi, charged, admitted, fwlast, inflight, deadline, cqlast>>
@@ -64,24 +65,40 @@ FlowWalk(e, f) ==
        ELSE "ok"
 
 \* ---- a request transaction: selection (C03), walk per selected flow (C04), answer (C07)
+\* The user flows that ran = those with a processor execution + those the engine counted as invoked.  A flow whose filter
+\* accepts the request ("yes") has to run unless an earlier flow answered the request; a flow whose filter refuses it ("no")
+\* must not run on either side.  After an answer the response sides of the flows selected for the answer run: their filters
+\* are judged on the same transaction seen as a response (constraints not observable there are "either", C03 zone Z3).
 ReqJudgement(e) ==
-    LET sel == G!SelectedFlows(e.url) IN
-    IF e.outcome = "ok" /\ G!UserFlowsIn(e.seq) # sel /\ ~G!AnsweredEarly(e.seq) THEN "flows-run-differ-from-flows-selected"
-    ELSE IF ~(G!UserFlowsIn(e.seq) \subseteq sel) THEN "flow-ran-although-its-filter-does-not-match"
+    LET x == G!TxnOf(e.x)
+        xr == [x EXCEPT !.side = "resp"]
+        ranq == G!UserFlowsDir(e.seq, "req") \cup G!SetOf(e.inv)
+        rans == G!UserFlowsDir(e.seq, "res")
+        sysran == {e.seq[i].q : i \in {j \in 1..Len(e.seq) : G!IsSysInc(e.seq[j])}}
+    IN
+    IF e.outcome = "panic" THEN "engine-panicked"
+    ELSE IF ~(ranq \cup rans \subseteq G!FlowNames) THEN "unknown-flow-ran"
+    ELSE IF \E f \in ranq : G!FlowV(f, x) = "no" THEN "flow-ran-although-its-filter-does-not-match"
+    ELSE IF \E f \in rans : G!FlowV(f, xr) = "no" THEN "flow-response-side-ran-although-its-filter-does-not-match"
+    ELSE IF e.outcome = "ok" /\ ~G!AnsweredEarly(e.seq) /\ \E f \in G!FlowNames : G!FlowV(f, x) = "yes" /\ f \notin ranq
+         THEN "flow-did-not-run-although-its-filter-matches"
     ELSE IF \E f \in G!UserFlowsIn(e.seq) : FlowWalk(e, f) # "ok" THEN "walk-does-not-follow-the-graph"
     ELSE IF \E i, j \in 1..Len(e.seq) : i < j /\ e.seq[i].sid = "" /\ e.seq[i].dir = "req" /\ KindAny(C0.cfg, e.seq[i].key) = "Gen"
                                           /\ e.seq[j].sid = "" /\ e.seq[j].dir = "req"
          THEN "request-side-of-another-flow-runs-after-the-answer"
-    ELSE IF e.outcome = "ok" /\ \E q \in G!MatchingQuotas(e.url) : ~\E i \in 1..Len(e.seq) : G!IsSysInc(e.seq[i]) /\ e.seq[i].q = q
+    ELSE IF \E q \in sysran : q \notin DOMAIN C0.QKind \/ G!QuotaV(q, x) = "no" THEN "quota-system-flow-ran-although-the-quota-filter-does-not-match"
+    ELSE IF e.outcome = "ok" /\ \E q \in DOMAIN C0.QKind : G!QuotaV(q, x) = "yes" /\ q \notin sysran
          THEN "quota-system-flow-did-not-run"
     ELSE IF e.outcome = "ok" /\ e.status # G!ExpectedStatus(e.seq) THEN "answer-is-not-the-first-early-response"
     ELSE "ok"
 
+\* the line of a request transaction is consumed when its last step is taken (TFinish): the high-water mark of l then always
+\* names the last event that was explained completely
 TBeginReq ==
-    /\ Consume("tx") /\ Ev.dir = "req"
+    /\ Idle /\ l < TraceLen /\ Ev.ev = "tx" /\ Ev.dir = "req"
     /\ LET v == ReqJudgement(Ev) IN IF v = "ok" THEN TRUE ELSE PrintT(<<"REJECT", l + 1, Ev.id, v>>) /\ FALSE
     /\ cur' = Ev /\ pos' = 1 /\ seen' = {}
-    /\ UNCHANGED <<now, qstate>>
+    /\ UNCHANGED <<now, qstate, l>>
 
 \* ---- one processor execution of the current request transaction
 Step == cur.seq[pos]
@@ -112,19 +129,38 @@ TQuota ==
 
 TFinish ==
     /\ pos > 0 /\ pos > Len(cur.seq)
-    /\ pos' = 0 /\ cur' = NoTx /\ seen' = {}
-    /\ UNCHANGED <<now, qstate, l>>
+    /\ pos' = 0 /\ cur' = NoTx /\ seen' = {} /\ l' = l + 1
+    /\ UNCHANGED <<now, qstate>>
 
 \* ---- responses and proxy errors give the slots back
+\* the flows whose filter accepts the response and that have something to run on the response side must run; a flow whose
+\* filter refuses the response (status code, method, url) must not
+ResJudgement(e) ==
+    LET x == G!TxnOf(e.x)
+        ran == G!UserFlowsIn(e.seq)
+        HasWork(f) == WellFormed(C0.cfg, f) /\ Len(Entry(C0.cfg, FlowOf(C0.cfg, f), "res")) > 0
+    IN
+    IF e.outcome = "panic" THEN "engine-panicked"
+    ELSE IF ~(ran \subseteq G!FlowNames) THEN "unknown-flow-ran"
+    ELSE IF \E i \in 1..Len(e.seq) : e.seq[i].dir # "res" THEN "request-side-processor-ran-for-a-response"
+    ELSE IF \E f \in ran : G!FlowV(f, x) = "no" THEN "flow-ran-although-its-filter-does-not-match"
+    ELSE IF e.outcome = "ok" /\ \E f \in G!FlowNames : G!FlowV(f, x) = "yes" /\ HasWork(f) /\ f \notin ran
+         THEN "flow-did-not-run-although-its-filter-matches"
+    ELSE IF \E f \in ran : WellFormed(C0.cfg, f) /\ UserVerdict(C0.cfg, f, "res", SelectSeq(e.seq, LAMBDA y : y.sid = "" /\ y.flow = f), e.outcome) # "ok"
+         THEN "response-walk-does-not-follow-the-graph"
+    ELSE "ok"
+
 TRes ==
     /\ Consume("tx") /\ Ev.dir = "res"
-    /\ LET bad == \E f \in G!UserFlowsIn(Ev.seq) :
-                     UserVerdict(C0.cfg, f, "res", SelectSeq(Ev.seq, LAMBDA x : x.sid = "" /\ x.flow = f), Ev.outcome) # "ok"
-       IN IF bad THEN PrintT(<<"REJECT", l + 1, Ev.id, "response-walk-does-not-follow-the-graph">>) /\ FALSE ELSE TRUE
-    \* a response walk that ended with an error may have stopped before the quota's releasing system flow ran (the slot is
-    \* then given back by expiry only, which C02's statement permits): either way is accepted for such a transaction
-    /\ \/ G!CQ!Response(Ev.id)
-       \/ (Ev.outcome = "error" /\ UNCHANGED <<now, inflight, deadline, cqlast>>)
+    /\ LET v == ResJudgement(Ev) IN IF v = "ok" THEN TRUE ELSE PrintT(<<"REJECT", l + 1, Ev.id, v>>) /\ FALSE
+    \* The slots of the transaction are given back by the releasing system flow of the quota (<id>_QuotaProcessorDec), which hangs on
+    \* the QUOTA's filter.  When it did not run - the response walk ended with an error before it (observation G3), or a Limiter took
+    \* the slot from a flow outside the quota's filter (observation G2) - the slot comes back by expiry only, which C02's statement
+    \* permits ("at the latest when its expiry time passes"): for such a response both outcomes are accepted.
+    /\ LET held == {q \in G!Conc : Ev.id \in inflight[q]}
+           decq == {Ev.seq[i].q : i \in {j \in 1..Len(Ev.seq) : Ev.seq[j].sys = "dec"}}
+       IN \/ G!CQ!Response(Ev.id)
+          \/ ((Ev.outcome = "error" \/ ~(held \subseteq decq)) /\ UNCHANGED <<now, inflight, deadline, cqlast>>)
     /\ UNCHANGED <<lo, hi, charged, admitted, fwlast, cur, pos, seen>>
 
 TErr == Consume("err") /\ G!CQ!ProxyError(Ev.id) /\ UNCHANGED <<lo, hi, charged, admitted, fwlast, cur, pos, seen>>
